@@ -112,6 +112,7 @@ func c03Frames(rt *rapid.T) {
 		under = &chunkReader{r: under, chunks: drawChunks(rt)}
 	}
 	cr := &countingReader{r: under}
+	var decoded []*frame.Frame
 	for i, f := range frames {
 		before := cr.n
 		dec, err := codec.DecodeFrame(cr)
@@ -121,7 +122,10 @@ func c03Frames(rt *rapid.T) {
 		if cr.n-before != lens[i] {
 			rt.Fatalf("DecodeFrame consumed %d bytes for frame %d, whose header+declared body is %d bytes (opcode %v, v%d, comp %s)", cr.n-before, i, lens[i], f.Header.OpCode, v, comp)
 		}
-		if d := diffFrames(f, dec); d != "" {
+		decoded = append(decoded, dec)
+	}
+	for i, f := range frames { // compared only now: frames handed out earlier must survive later decodes
+		if d := diffFrames(f, decoded[i]); d != "" {
 			rt.Fatalf("frame %d of the stream decoded differently: %s", i, d)
 		}
 	}
